@@ -440,6 +440,32 @@ func ruleNoTryLockSkip() check.Rule {
 					return true
 				})
 			}
+			// the subjects: neither their methods nor the teardowns they register give up an update of the subject's state
+			// because the mutex is busy (an observer removal that is skipped leaves a dead observer registered for ever:
+			// unicast then refuses every later subscriber)
+			p := m.Obj.Ro
+			for _, tname := range subjectTypes(m) {
+				for _, fd := range methodsOf(p, tname) {
+					if fd.Body == nil {
+						continue
+					}
+					k := 0
+					ast.Inspect(fd.Body, func(x ast.Node) bool {
+						call, ok := x.(*ast.CallExpr)
+						if !ok {
+							return true
+						}
+						sel, ok := ast.Unparen(call.Fun).(*ast.SelectorExpr)
+						if !ok || sel.Sel.Name != "TryLock" || len(call.Args) != 0 {
+							return true
+						}
+						n++
+						k++
+						c.Violation(fmt.Sprintf("ro.%s.%s/trylock#%d", tname, fd.Name.Name, k), call.Pos(), "TryLock in a subject: when the mutex is busy (a producer inside Next, a query) the update this call stands for is skipped — an observer removal that is skipped leaves the closed subscriber registered, later values go to it and every later Subscribe is refused")
+						return true
+					})
+				}
+			}
 			c.Inc("trylock_sites", n)
 		},
 	}
